@@ -62,16 +62,23 @@ def collapseLoop : Nat → Str → Option Str
     if isInfixOf Gen.sanCollapseFrom s then collapseLoop f (replaceAll Gen.sanCollapseFrom Gen.sanCollapseTo s)
     else some s
 
+/-- the leading `result.replace(...)` calls -/
+def sanReplace (lowered : Str) : Str := Gen.sanReplacements.foldl (fun acc p => replaceAll p.1 p.2 acc) lowered
+/-- the per-character loop and `"".join` -/
+def sanLoop (s : Str) : Str := s.flatMap sanitizeChar
+/-- `if result and result[0].isdigit(): result = PREFIX + result` -/
+def sanDigit (s : Str) : Str :=
+  match s with
+  | c :: _ => if isDigit c then Gen.sanDigitPrefix ++ s else s
+  | [] => s
+/-- the collapse loop (at most `len(result)` iterations are ever needed) -/
+def sanCollapse (s : Str) : Str := (collapseLoop s.length s).getD s
+def sanStrip (s : Str) : Str := stripChars Gen.sanStripChars s
+
 /-- `_sanitize_rule_name(field_name)` given `lowered = field_name.lower()`. -/
 def sanitize (lowered : Str) : Str :=
-  let r0 := Gen.sanReplacements.foldl (fun acc p => replaceAll p.1 p.2 acc) lowered
-  let r1 := r0.flatMap sanitizeChar
-  let r2 := match r1 with
-    | c :: _ => if isDigit c then Gen.sanDigitPrefix ++ r1 else r1
-    | [] => r1
-  let r3 := (collapseLoop r2.length r2).getD r2
-  let r4 := stripChars Gen.sanStripChars r3
-  if r4.isEmpty then Gen.sanFallback else r4
+  let r := sanStrip (sanCollapse (sanDigit (sanLoop (sanReplace lowered))))
+  if r.isEmpty then Gen.sanFallback else r
 
 /-! ## constraints and their fragments -/
 
